@@ -31,6 +31,8 @@ inductive MStmt
   | ifGe (n : Nat) (body : List MStmt)
   /-- `for len(b) >= n { words…; b = b[adv:] }` -/
   | loop (n : Nat) (words : List WordXor) (adv : Nat)
+  /-- `if len(b) >= n { words…; b = b[adv:] }`: the loop body at most once -/
+  | once (n : Nat) (words : List WordXor) (adv : Nat)
   /-- `for i := range b { b[i] ^= byte(key); key = bits.RotateLeft32(key, -8) }` -/
   | tail
   /-- a statement the translator did not recognise (kept verbatim; never well-formed). -/
@@ -112,6 +114,7 @@ mutual
 def runStmt : MStmt → MState → Option MState
   | .ifGe n body, s => if s.b.length ≥ n then runStmts body s else some s
   | .loop n words adv, s => runLoop n words adv (s.b.length + 1) s
+  | .once n words adv, s => runLoop n words adv 1 s
   | .tail, s =>
     let r := runTail s.b s.key
     some { done := s.done ++ r.1, b := [], key := r.2 }
@@ -140,6 +143,7 @@ mutual
 def stmtWF : MStmt → Bool
   | .ifGe _ body => stmtsWF body
   | .loop n words adv => wordsTile 0 words == some adv && adv ≤ n && adv > 0
+  | .once n words adv => wordsTile 0 words == some adv && adv ≤ n && adv > 0
   | .tail => false      -- the tail is only allowed as the last top-level statement
   | .unknown _ => false
 def stmtsWF : List MStmt → Bool
